@@ -4,7 +4,7 @@ Refuting event: a token list returned by emmet.abbreviation.tokenize /
 emmet.css_abbreviation.tokenize whose spans are undefined, empty, overlapping, gapped or
 do not end at len(input); or an escaping exception that is not ScannerException with
 0 <= pos <= len(input)."""
-from .. import core, enum, gen_abbr, gen_cssabbr, stretch
+from .. import core, forms, enum, gen_abbr, gen_cssabbr, stretch
 
 ID = 'C18'
 RULE = ('cases = (mode, string) with mode in markup / stylesheet-property / stylesheet-value; '
@@ -65,13 +65,14 @@ def with_int_limit(limit, fn):
         INT_LIMIT['now'] = None
 
 
-EDITS = [0]
+EDITS = [0, 0]
 
 
 def check(mode, s, cls, ctx, fns, again=False, force_edit=None):
     from emmet.scanner import ScannerException
     ctx.ev(cls)
-    r = core.call(fns[mode], s)
+    EDITS[1] += 1
+    r = core.call(fns[mode], forms.Shown(s) if EDITS[1] % 7 == 0 else s)        # (every seventh input as a str subclass that shows something else)
     case = {'mode': mode, 's': s}
     if again is not False:
         case['after_caller_edit'] = again
